@@ -53,3 +53,31 @@ Print Assumptions C19_all_witnesses_nil_iff.
 Theorem C19_forwarding_substitute_accepts_all : forall o, sig_subsumes ex_star o = true.
 Proof. exact star_subsumes_all. Qed.
 Print Assumptions C19_forwarding_substitute_accepts_all.
+
+(* ---- the call-signature adapter (model of jax2onnx.plugins._patching.plan_call, tied to it by the harness) *)
+(* a call the substitute accepts today is passed on unchanged *)
+Theorem C19_adapter_conservative : forall w o dflt c, binds w c = true -> adapter w o dflt c = Direct.
+Proof. exact adapter_conservative. Qed.
+Print Assumptions C19_adapter_conservative.
+
+(* with the adapter installed, no call form the original accepts fails at binding *)
+Theorem C19_adapter_accepts : forall w o dflt c, binds o c = true ->
+  adapter w o dflt c = Direct \/ adapter w o dflt c = Original \/ exists c' d, adapter w o dflt c = Routed c' d.
+Proof. exact adapter_total. Qed.
+Print Assumptions C19_adapter_accepts.
+
+(* only a call neither signature accepts is left to the substitute's own TypeError *)
+Theorem C19_adapter_foreign : forall w o dflt c,
+  adapter w o dflt c = Foreign -> binds o c = false /\ binds w c = false.
+Proof. exact adapter_foreign. Qed.
+Print Assumptions C19_adapter_foreign.
+
+(* a re-routed call is a legal call form the substitute accepts; every argument is delivered exactly once or
+   dropped, and an argument is dropped only when its value is the original's default *)
+Theorem C19_adapter_routed : forall w o dflt c c' d,
+  adapter w o dflt c = Routed c' d ->
+  binds o c = true /\ binds w c = false /\ binds w c' = true /\ NoDup (c_kws c') /\
+  c_npos c' + length (c_kws c') + length d = c_npos c + length (c_kws c) /\
+  (forall a, In a d -> dflt a = true).
+Proof. exact adapter_routed. Qed.
+Print Assumptions C19_adapter_routed.
